@@ -122,7 +122,7 @@ CLAIMED = {
         "cut lemma (uniqueness of the first split). Proved at every exit: Sync(client) - the socket is dropped and closed, or nothing "
         "of the answer is unread or buffered; nothing is read with noreply; exactly one unit per command otherwise; the batch is sent "
         "once. delete/incr/decr/touch/flush_all/delete_many: the command carries the noreply marker iff the method does not wait.",
-   note="Not yet mechanised: _fetch_cmd/_extract_value (get family, stats), the thin set/add/.../cas wrappers, HashClient wrappers. Trusted: "
+   note="_fetch_cmd/_extract_value (single-key fetches) and the set/get families are covered the same way. Not yet mechanised: multi-key fetches, stats, set_many's wrapper, version/quit/shutdown, HashClient wrappers. Trusted: "
         "reader contracts (C03), _connect contract (C06), causality of the reply stream, the meta-lemma composing per-call Sync into the "
         "sequence-level statement. Termination ('never blocks') is outside this family.",
    technique="contract-based deductive verification: ghost reply stream, loop invariants, cut lemmas; string VCs by cvc5 + z3",
@@ -166,7 +166,7 @@ CLAIMED = {
    text="PooledClient read methods with ignore_exc: for any Exception-class failure of the inner call the method does not raise and "
         "returns exactly the miss value, which is computed by executing the real Client method on an empty fetch result; the slot is "
         "returned and the failed socket closed (C09).",
-   note="HashClient get/gat/gats/gets are covered the same way (failure, back-off and no-server all return the miss value; dep:C13 re-proves that nothing escapes). Client._fetch_cmd's own ignore_exc path and the multi-key reads are not yet mechanised (NOT_COVERED).",
+   note="HashClient get/gat/gats/gets are covered the same way (failure, back-off and no-server all return the miss value; dep:C13 re-proves that nothing escapes). Client._fetch_cmd's own ignore_exc path is proved (empty result, connection dropped, never raises once the exchange started) and get/gets/gat/gats turn it into the miss value; the multi-key reads are not yet mechanised (NOT_COVERED).",
    technique="contract-based deductive verification: exceptional postconditions over callee contracts (z3)",
    ref="5 C07"),
  "C12": dict(
@@ -204,6 +204,28 @@ CLAIMED = {
         "dict axioms, add_server contract, distinct node names.",
    technique="contract-based deductive verification: loop invariants over ghost tables (z3); text parsing by bounded enumeration",
    ref="5 C19"),
+ "C04": dict(
+   text="Client._fetch_cmd and _extract_value (single-key get/gets/gat/gats) are executed symbolically from the real source against the reply "
+        "format of a faithful server - N item blocks 'VALUE <key> <flags> <bytes>[ <cas>]' + data of exactly that many ARBITRARY bytes, then "
+        "one terminal line - with a loop invariant (buf ++ unread == U(items consumed); result holds the last item under the caller's "
+        "own key object) and two cut lemmas per iteration (first-split uniqueness for the header, length-prefixed block for the data). "
+        "Proved: the value handed to the serde is exactly the data block (binary safety, any size), with its flags and cas token; a hit "
+        "returns deserialize(caller's key, data, flags); no item -> empty; the prefix is on the wire (C02) and never in the result.",
+   note="The end-to-end statement get(set(v)) == v is the composition of this contract with C02 (what a store sends) and C15 (serde inverse) "
+        "against the assumed server format; that composition is an argument over machine-checked contracts, not a fourth proof. NOT "
+        "COVERED: multi-key fetches and key collections given as one-shot iterators. Reader contracts re-proved as dep:C03.",
+   technique="contract-based deductive verification: loop invariant + cut lemmas over a ghost reply stream (cvc5 + z3)",
+   ref="5 C04"),
+ "C05": dict(
+   text="Per-method contracts from the real source against the documented outcome table taken from the statement: _store_cmd maps every "
+        "key to the documented value of its own reply line (tables read from the AST must equal the documented ones); set/add/replace/"
+        "append/prepend/cas, delete/touch/flush_all, incr/decr, delete_many, get/gat/gets/gats return exactly the documented result "
+        "for each server outcome and the documented constant with noreply, with the documented noreply defaults.",
+   note="The history-level statement (client + faithful server is indistinguishable from an in-memory map) is the composition of these "
+        "per-call facts with C01/C02; the induction over histories is stated, not mechanised, and exercised by a bounded replay (random "
+        "histories against a faithful fake server). NOT COVERED: set_many's failed-key list, get_many/gets_many, stats/version.",
+   technique="contract-based deductive verification: finite case VCs per method over exchange-function contracts (z3 + cvc5)",
+   ref="5 C05"),
 }
 REASON_PENDING = "contracts designed (DESIGN.md section 5) but not yet mechanised; not claimed"
 
